@@ -12,6 +12,7 @@ NOT_DECIDED = [
     "byte-for-byte equality of printed canonical entries (follows from D1-D3 + std formatting)",
 ]
 CONFIG_SENSITIVE = False
+DESUGAR = True
 
 
 def loop_driver(body, paths, header):
